@@ -899,8 +899,8 @@ def analyze(ctx, want):
     cls = F.closures_of(cm)
     for c in cls:
         names = c.names()
-        if c.argc == 3 and "acc" in names.values():
-            pass
+        if c.argc == 3 and c.locals[0]["ty"] != "bool":
+            pass        # (the closure that builds the table — it returns the table, not a membership answer)
         elif c.argc == 3:
             tt = eval_closure(F, ("closure", c.key, (("sym", "match_functions"),)), nargs=2)
             ok = False
